@@ -110,6 +110,22 @@ class C24(Property):
                     single[r['name'] + '|' + d['name']] = np.atleast_2d(p.compute_totals(
                         of=[r['name']], wrt=[d['name']], return_format='array')).tolist()
             res['single'] = single
+            # other of/wrt than the driver's: variables that were irrelevant for every declared pair
+            # may be needed now (nothing pruned for the first queries may stay pruned)
+            dv = {d['name'] for d in v['desvars']}
+            rs = {r['name'] for r in v['responses']}
+            wrts = [gm.out_root_name(md, ci, od['name']) for ci, c in enumerate(md['comps'])
+                    if c['kind'] == 'ivc' for od in c['outs']]
+            ofs = [gm.out_root_name(md, ci, od['name']) for ci, c in enumerate(md['comps'])
+                   if c['kind'] != 'ivc' for od in c['outs']]
+            wrts = [w for w in wrts if w not in dv][:2] or wrts[:1]
+            ofs = [o for o in ofs if o not in rs][-2:] or ofs[-1:]
+            foreign = {}
+            for o in ofs:
+                for w in wrts:
+                    foreign[o + '|' + w] = np.atleast_2d(p.compute_totals(
+                        of=[o], wrt=[w], return_format='array')).tolist()
+            res['foreign'] = foreign
             if not no_rel:
                 rel = p.model._relevance
                 relv = {}
@@ -241,6 +257,10 @@ class C24(Property):
             if not self._close(on['single'][k], v, tol):
                 return {'what': 'single-pair compute_totals differs with relevance enabled',
                         'pair': k, 'on': on['single'][k], 'off': v}
+        for k, v in off.get('foreign', {}).items():
+            if not self._close(on['foreign'][k], v, tol):
+                return {'what': 'compute_totals for other of/wrt differs with relevance enabled',
+                        'pair': k, 'on': on['foreign'][k], 'off': v}
         if 'drv_on' in impl and 'drv_off' in impl:
             for k, v in impl['drv_off'].items():
                 if not self._close(impl['drv_on'][k], v, 1e-6):
